@@ -162,10 +162,10 @@ namespace TAO_PEGTL_NAMESPACE
 
       void require( const std::size_t amount )
       {
-         if( m_current.data + amount <= m_end ) {
+         if( amount <= buffer_occupied() ) {
             return;
          }
-         if( m_current.data + amount > m_buffer.get() + m_maximum ) {
+         if( amount > buffer_capacity() - buffer_free_before_current() ) {
 #if defined( __cpp_exceptions )
             throw std::overflow_error( "require() beyond end of buffer" );
 #else
